@@ -152,6 +152,8 @@ def run(ctx):
                 nv += 1
                 break
     from vlib.valuecheck import replay_findings
+    from vlib import regress
+    regress.search(ctx, {"C08"})          # the shape-agnostic search step (DESIGN.md 12.8)
     replay_findings(ctx)
     ctx.cov["rule"] = ("systematic: 11 enum lists (strings, one value, five values, integers, numbers, booleans, mixed, with null, null first, numeric-looking strings) "
                        "x typed/untyped x 7 positions (required, optional, $ref, array item, item by reference, with default, nested); documents: every member and near-miss "
